@@ -68,6 +68,21 @@ def run(ctx):
             if valid:
                 percall.discard(vattr)
                 percall.discard(kattr)
+    # values computed once per OBJECT (functools.cached_property): only sound when they read nothing that can change after construction
+    from ..engines.memo import ClassInfo, self_attr
+    info_ = ClassInfo(repo, repo.module(INF), 'FactoredInference')
+    for name, m in repo.methods(INF, 'FactoredInference').items():
+        decs = [U(d.func if isinstance(d, ast.Call) else d) for d in getattr(m.node, 'decorator_list', [])]
+        if any(d in ('cached_property', 'functools.cached_property') for d in decs):
+            ctx.analysed(m)
+            reads = sorted({self_attr(n) for n in ast.walk(m.node) if isinstance(n, ast.Attribute) and isinstance(n.ctx, ast.Load)} - {None})
+            unstable = [a for a in reads if not info_.stable(a) and a not in info_.methods]
+            ctx.ob('A3-config-read-only', m, m.node, not unstable,
+                   '`%s` is computed once per object (cached_property); it reads %s%s' % (name, ['self.' + a for a in reads], '' if not unstable else
+                   ' - of which %s can be re-bound after construction (%s): the value of the first use is kept, later changes are silently ignored, and what a '
+                   'call computes then depends on the calls before it' % (['self.' + a for a in unstable],
+                                                                          'from outside the object, as the mechanisms do' if any(a in info_.foreign for a in unstable) else 'by methods of the class')),
+                   construct='cached property ' + name)
     ctx.count('per-call attributes', len(percall))
     ctx.count('configuration attributes', len(config))
     if not percall:
